@@ -28,6 +28,7 @@ TraceInit == Init /\ l = 1 /\ TLCSet(1, 0)
 
 TraceReset ==
     /\ IsEvent("Reset")
+    /\ fscfg' = IF Has("fscfg") THEN Ev.fscfg ELSE "--"
     /\ toc' = Ev.toc
     /\ src' = [c \in Chunks |-> "g"] /\ cache' = [c \in Chunks |-> "-"] /\ pf' = NoPf
     /\ prohibit' = FALSE /\ lastErr' = FALSE /\ verify' = FALSE
@@ -46,6 +47,10 @@ TraceVTLoad == IsEvent("VTLoad") /\ VTLoad(Ev.d) /\ ObsOK /\ ErrOK
 TraceVTUnlock == IsEvent("VTUnlock") /\ VTUnlock /\ ObsOK
 TraceVTFinish == IsEvent("VTFinish") /\ VTFinish /\ last'.res = Ev.res /\ ObsOK /\ ErrOK
 TraceLayerVerify == IsEvent("LayerVerify") /\ LayerVerify(Ev.d) /\ last'.res = Ev.res /\ ObsOK /\ ErrOK
+TraceMount ==
+    /\ IsEvent("Mount") /\ Mount(Ev.tl, Ev.sk) /\ last'.res = Ev.res
+    /\ (Has("lr") => lr' = Ev.lr)      \* whether the reader of the mounted layer came from VerifyTOC or SkipVerify
+    /\ ObsOK /\ ErrOK
 TraceLayerSkip == IsEvent("LayerSkip") /\ LayerSkip /\ ObsOK /\ ErrOK
 TraceRead == IsEvent("Read") /\ Read(Ev.r, Ev.c) /\ last'.res = Ev.res /\ last'.v = Ev.v /\ ObsOK /\ ErrOK
 TracePassRead ==
@@ -60,7 +65,7 @@ TraceEnd == (IsEvent("End") \/ IsEvent("LateRead")) /\ UNCHANGED vars
 TraceNext ==
     \/ TraceEnd
     \/ TraceReset \/ TraceAlter \/ TraceWProbe \/ TraceWReadSrc \/ TraceWTryDecide \/ TraceWDecide \/ TraceWCommit
-    \/ TraceVTLoad \/ TraceVTUnlock \/ TraceVTFinish \/ TraceLayerVerify \/ TraceLayerSkip \/ TraceRead \/ TracePassRead
+    \/ TraceVTLoad \/ TraceVTUnlock \/ TraceVTFinish \/ TraceLayerVerify \/ TraceMount \/ TraceLayerSkip \/ TraceRead \/ TracePassRead
 
 TraceSpec == TraceInit /\ [][TraceNext]_tvars
 
